@@ -133,10 +133,19 @@ fn words(items: &[String]) -> String {
 
 pub fn filter_set_object(name: &str, expr: &str) -> String {
     // "@filter <expr>": an object that has the (IPv4-only) `filter:` attribute instead of `mp-filter:`
+    // "@nofilter": an object that has neither a `filter:` nor an `mp-filter:` attribute (stale / truncated)
+    if expr == "@nofilter" {
+        return format!("filter-set:     {name}\ndescr:          test object without a filter\nmnt-by:         MAINT-TEST\nsource:         TEST");
+    }
+    // "@descr <text>|<expr>": a given description (non-ASCII registry data)
+    let (descr, expr) = match expr.strip_prefix("@descr ").and_then(|r| r.split_once('|')) {
+        Some((d, e)) => (d.to_string(), e),
+        None => ("test object".to_string(), expr),
+    };
     // "@nochanged <expr>": an object without the `changed:` attribute (removed from the RIPE database in 2016)
     let (changed, expr) = expr.strip_prefix("@nochanged ").map_or(("changed:        noc@example.net 20240101\n", expr), |e| ("", e));
     let (attr, expr) = expr.strip_prefix("@filter ").map_or(("mp-filter:", expr), |e| ("filter:   ", e));
-    format!("filter-set:     {name}\ndescr:          test object\n{attr}      {expr}\ntech-c:         DUMY-TEST\nadmin-c:        DUMY-TEST\nmnt-by:         MAINT-TEST\n{changed}source:         TEST")
+    format!("filter-set:     {name}\ndescr:          {descr}\n{attr}      {expr}\ntech-c:         DUMY-TEST\nadmin-c:        DUMY-TEST\nmnt-by:         MAINT-TEST\n{changed}source:         TEST")
 }
 
 fn answer(db: &Db, query: &str) -> String {
